@@ -141,17 +141,19 @@ theorem wr_ok {s : BB} {off : Int} {src : List Byte} (ho : 0 ≤ off)
 
 /-! ## Representation invariant (of the fixed code) -/
 
-/-- what holds in every state reachable from `init c`, `c ≥ 1` -/
+/-- what holds in every state reachable from `init c`, `c ≥ 1`. In the contiguous
+layout (`r ≤ w`) the truncation mark `t` is unconstrained inside `[0, c]`: it may be a
+stale mark left behind when the reader wrapped; the fixed code never consults it there. -/
 structure Inv (s : BB) : Prop where
   cpos : 1 ≤ s.c
   len  : (s.buf.length : Int) = s.c
   w0   : 0 ≤ s.w
   r0   : 0 ≤ s.r
   wc   : s.w < s.c
-  /-- not wrapped: no truncation mark is pending (this is what the fix establishes) -/
-  flat : s.r ≤ s.w → s.t = s.c
+  t0   : 0 ≤ s.t
+  tc   : s.t ≤ s.c
   /-- wrapped: the reader is at or before the truncation mark -/
-  wrap : s.w < s.r → s.r ≤ s.t ∧ s.t ≤ s.c
+  wrap : s.w < s.r → s.r ≤ s.t
 
 theorem abs_flat {s : BB} (h : s.r ≤ s.w) :
     abs s = slice s.buf s.r.toNat (s.w - s.r).toNat := by simp [abs, h]
